@@ -7,11 +7,11 @@ import sys,os,glob,re,subprocess
 D=sys.argv[1]
 os.makedirs(D,exist_ok=True)
 AREAS={
- 'par2dec':"par2/decoder.go: fillShardInfos and fillFileIntegrityInfos (the slice search and what it is fed), the per-volume acceptance in LoadParityData (reading a volume file, the main-packet / recovery-set / slice-size comparisons), LoadFileData; par2/crc32.go (newCRC32Window, update)",
- 'par2enc':"par2/create.go: create (option defaulting, making the input paths absolute, what is handed to newEncoder); par2/encoder.go: newEncoder, LoadFileData; par2/data_file.go; par2/string.go; par2/file_description_packet.go (checkFilename and the packet codec)",
- 'par1':"par1/create.go: create (option defaulting, the same-directory test, what is handed to newEncoder); par1/decoder.go: LoadFileData (the per-file closure that reads and classifies a data file), getFilePath, volumePath, newDecoder; par1/volume.go: readVolume, writeVolume; par1/header.go; par1/file_entry.go",
- 'field':"gf2p16/slice.go (the portable Generic kernels), gf2p16/slice_amd64.go, gf2p16/slice_unsafe.go and the other platform dispatch files (Go only), gf2p16/t.go and t_amd64.go (table construction in init/platformInit), gf2/poly64.go, rsec16/matrix.go (applyMatrixSlice, applyMatrixParallelData, calculateParallelParams)",
- 'cli':"the error paths of the library entry points used by the CLI: par1/verify.go, par1/repair.go, par2/verify.go, par2/repair.go (result structs, error classification helpers), the delegates in cmd/par/main.go, and par2/decoder.go defaultFileIO / par1/file_io.go",
+ 'par2dec':"par2/decoder.go: sliceAndPadByteArray, makeChecksumShardLocationMap, checksumShardLocationMap.put/get, fillShardInfos, newCoderAndShards (both branches), Decoder.Repair (reassembly buffer, hash checks, write loop), ShardCounts",
+ 'par2enc':"par2/file.go readFile and writeFile; par2/packet.go (readNextPacket, writeNextPacket, checkPacketHeader, computePacketHash); par2/main_packet.go (fileIDLess, read/writeMainPacket, checkFileIDSetsSorted); par2/recovery_packet.go; par2/ifsc_packet.go",
+ 'par1':"par1/decoder.go: FileCounts, VerifyAllData, Repair (write loop and bookkeeping), LoadParityData; par1/encoder.go: LoadFileData, buildShards, Write; par1/repair.go, par1/verify.go",
+ 'field':"rsec16/matrix.go: applyMatrixSlice, applyMatrixSingle, applyMatrixParallelOut, applyMatrixParallelData, calculateParallelParams; rsec16/coder.go: GenerateParity, ReconstructData; gf2p16/matrix.go: swapRows, scaleRow, addScaledRow, Times, clone, rowReduceForInverse",
+ 'cli':"cmd/par/main.go: the logging delegates (par1Log*/par2Log* types and their methods), printUsageAndExit and the print*ErrorAndExit helpers, the flag set constructors, processRepairChecker and processRepairResultAndExit",
 }
 T='''# Task: behaviour-preserving refactors of gopar
 
